@@ -418,10 +418,9 @@ def find_reference_citations_from_markup(
                 continue
             if not is_valid_name(value):
                 continue
-            value = re.sub(r"\s+", re.escape(" "), re.escape(value.strip()))
-            regexes.append(
-                r"(?P<{}>{})".format(key, value.replace(" ", r"\s+"))
-            )
+            # the words of the name, separated by any whitespace
+            value = r"\s+".join(re.escape(word) for word in value.split())
+            regexes.append(r"(?P<{}>{})".format(key, value))
         if not regexes:
             continue
 
